@@ -1,35 +1,35 @@
 #!/bin/bash
 # usage: confirm_mutants.sh <worktree> <out.tsv> <mutant dir>...
 # For each mutant dir (patch.diff + demo.diff): confirm in a scratch worktree that
-#   (a) demo alone passes, (b) patch+demo fails only in tests added by the demo, (c) patch alone: lib tests as baseline.
+#   (a) demo alone: no failures, (b) patch+demo: fails, and only in tests the demo added, (c) patch alone: lib tests as baseline.
 WT="$1"; OUT="$2"; shift 2
 export CARGO_TARGET_DIR="$WT/target"
-run_tests() { (cd "$WT" && cargo test --offline -p opcua --lib 2>&1 | grep -E "^test .* \.\.\. (ok|FAILED)$|^error" ); }
+run_tests() { (cd "$WT" && cargo test --offline -p opcua --lib 2>&1 | grep -E "^test result:|^    [a-z_:0-9A-Z]+$|^error(\[|:)" ); }
+summary() { echo "$1" | grep "^test result:" | sed -E 's/.* ([0-9]+) passed; ([0-9]+) failed.*/\1 \2/'; }
+failed_names() { echo "$1" | grep -E "^    [a-z_:0-9A-Z]+$" | sort -u | tr -d ' ' | tr '\n' ','; }
 clean() { git -C "$WT" checkout -q -- . ; git -C "$WT" clean -fdq -e target; }
 clean
-BASE=$(run_tests); BASEFAIL=$(echo "$BASE" | grep -c FAILED); BASEN=$(echo "$BASE" | grep -c "^test ")
-echo "baseline: $BASEN tests, $BASEFAIL failed" >> "$OUT"
+BASE=$(run_tests); read BP BF <<< "$(summary "$BASE")"; BASEFAILED=$(failed_names "$BASE")
+echo "baseline: passed=$BP failed=$BF [$BASEFAILED]" >> "$OUT"
 for d in "$@"; do
   id=$(basename "$d")
   clean
   if ! git -C "$WT" apply "$d/demo.diff" 2>/dev/null; then echo -e "$id\tdemo does not apply" >> "$OUT"; continue; fi
-  A=$(run_tests); a_fail=$(echo "$A" | grep -c FAILED); a_err=$(echo "$A" | grep -c "^error")
+  A=$(run_tests); read AP AF <<< "$(summary "$A")"
   if ! git -C "$WT" apply "$d/patch.diff" 2>/dev/null; then echo -e "$id\tpatch does not apply on demo" >> "$OUT"; continue; fi
-  B=$(run_tests); b_fail=$(echo "$B" | grep FAILED | awk '{print $2}' | tr '\n' ','); b_err=$(echo "$B" | grep -c "^error")
-  # failures with patch+demo that are baseline tests
-  b_basefail=0
-  for t in $(echo "$B" | grep FAILED | awk '{print $2}'); do if echo "$BASE" | grep -q "^test $t "; then b_basefail=$((b_basefail+1)); fi; done
+  B=$(run_tests); read BBP BBF <<< "$(summary "$B")"; BFN=$(failed_names "$B")
   clean
   git -C "$WT" apply "$d/patch.diff"
-  C=$(run_tests); c_fail=$(echo "$C" | grep -c FAILED); c_n=$(echo "$C" | grep -c "^test "); c_err=$(echo "$C" | grep -c "^error")
+  C=$(run_tests); read CP CF <<< "$(summary "$C")"; CFN=$(failed_names "$C")
   clean
   ok="CONFIRMED"
-  [ "$a_fail" != "$BASEFAIL" ] && ok="REJECT(demo fails without patch)"
-  [ "$a_err" != "0" ] && ok="REJECT(demo build error)"
-  [ -z "$b_fail" ] && ok="REJECT(demo passes with patch)"
-  [ "$b_basefail" != "$BASEFAIL" ] && ok="REJECT(patch+demo fails baseline tests)"
-  [ "$c_fail" != "$BASEFAIL" ] && ok="REJECT(patch fails existing tests)"
-  [ "$c_n" != "$BASEN" ] && ok="REJECT(patch changes test count or does not build)"
-  echo -e "$id\t$ok\tdemo_only_fail=$a_fail\tpatch+demo_failed=$b_fail\tpatch_only_fail=$c_fail/$c_n" >> "$OUT"
+  [ "${AF:-x}" != "$BF" ] && ok="REJECT(demo fails without patch or build error)"
+  [ "${BBF:-0}" -le "$BF" ] 2>/dev/null && ok="REJECT(demo passes with patch)"
+  [ -z "${BBF:-}" ] && ok="REJECT(patch+demo build error)"
+  newtests=$(( ${AP:-0} + ${AF:-0} - BP - BF ))
+  extra=$(( ${BBF:-0} - BF ))
+  [ "$extra" -gt "$newtests" ] 2>/dev/null && ok="REJECT(patch+demo fails more tests than the demo added)"
+  [ "${CP:-x}" != "$BP" -o "${CF:-x}" != "$BF" ] && ok="REJECT(patch alone changes lib test results: $CP/$CF [$CFN])"
+  echo -e "$id\t$ok\tdemo_only=$AP/$AF\tpatch+demo=$BBP/$BBF [$BFN]\tpatch_only=$CP/$CF" >> "$OUT"
 done
 echo "done" >> "$OUT"
